@@ -283,3 +283,19 @@ def carried_of(b, phi):
 def phi_with_init(b, init_pred):
     """the loop-carried variables of b's loop whose initial value satisfies init_pred"""
     return [(ph, v) for ph, v in loop_phis(b) if init_pred(ph[4])]
+
+
+def eq_facts(conds):
+    """equality conditions of a path in canonical form: list of ('==' | '!=', x, y), whichever way the source spells them
+    (x == y, !(x != y), ...)"""
+    out = []
+    for a, v in conds:
+        if a[0] != "b" or not isinstance(a[1], tuple) or not a[1] or not isinstance(v, bool):
+            continue
+        t = a[1]
+        if t[0] == "bin" and t[1] in ("Eq", "Ne"):
+            same = (t[1] == "Eq") == v
+            out.append(("==" if same else "!=", t[2], t[3]))
+        elif t[0] == "eq":
+            out.append(("==" if v else "!=", t[1], t[2]))
+    return out
